@@ -325,6 +325,9 @@ def do_verify(opts, idattrs, pos):
     si, halg, covered = process_references("--verify", root, ids, sig, uris)
     rec["covered"] = [(t, i) for (t, i, _) in covered]
     rec["sig_parent_is_start"] = any(c is sig for c in start)
+    own = [c for c in start if c.tag == SIG]
+    rec["n_sig_children"] = len(own)
+    rec["sig_is_last_own"] = bool(own) and own[-1] is sig
     pub = None
     if "--pubkey-cert-pem" in opts:
         pub = load_public_from_cert_file(opts["--pubkey-cert-pem"])
